@@ -651,6 +651,36 @@ func Run(r *ev.Run) {
 	})
 	srv := mux.Server("doh.test")
 	hostile(r, srv)
+	// the package-level Resolve is Resolve of the resolver the application installed (DefaultResolver "is used by Resolve, Dial
+	// and quic.Dial"): after DefaultResolver is replaced, that is where the queries go
+	{
+		srvD := mux.Server("default.test")
+		srvD.Zone = func(name string, t uint16) dohmem.Answer {
+			if name == "default.example" && t == 1 {
+				return dohmem.Answer{Records: []dnsref.RR{{Name: name, Type: 1, Class: 1, TTL: 60, Fields: []dnsref.Field{{Raw: []byte{10, 7, 7, 7}}}}}}
+			}
+			return dohmem.Answer{}
+		}
+		custom, err := ech.NewResolver("https://default.test/dns-query")
+		if err != nil {
+			ev.ToolError("c14: NewResolver: %v", err)
+		}
+		old := ech.DefaultResolver
+		ech.DefaultResolver = custom
+		var res ech.ResolveResult
+		panicked := any(nil)
+		func() {
+			defer func() { panicked = recover() }()
+			res, err = ech.Resolve(context.Background(), "default.example")
+		}()
+		ech.DefaultResolver = old
+		oc := "package-level Resolve -> installed resolver"
+		if panicked != nil || err != nil || len(srvD.Queries()) == 0 || len(res.Address) != 1 {
+			oc = "package-level Resolve -> not the installed resolver"
+			r.Violation("package-resolve-ignores-default-resolver", fmt.Sprintf("after ech.DefaultResolver was replaced, ech.Resolve(\"default.example\") sent %d queries to the installed resolver's server and returned %+v, err=%v, panic=%v", len(srvD.Queries()), res, err, panicked), "default.example")
+		}
+		r.Eval("default-resolver", oc)
+	}
 	r.Set("states", int(executed.Load()))
 	r.Set("traces_validated_against_impl", int(executed.Load()))
 }
@@ -956,6 +986,23 @@ func hostile(r *ev.Run, srv *dohmem.Server) {
 	inputs = append(inputs, "o.example\\", "abc\\", "\\", "a\\.b.example", "https://o.example\\/", "o.example\\:8443")
 	// escaped dots join what looks like several short labels into ONE label on the wire: the limits hold for what is sent
 	inputs = append(inputs, label(40)+"\\."+label(40)+".example.com", label(62)+"\\."+label(62)+"\\."+label(62)+"\\."+label(60), label(31)+"\\."+label(31)+".example", label(32)+"\\."+label(31)+".example:8443")
+	// labels whose LAST octets are written as escapes: 60..64 plain octets followed by every string of 1..3 escapes out of
+	// {\\, \., \-}, with and without a plain octet after them, as first and as last label of the host
+	for n := 60; n <= 64; n++ {
+		enum.Sequences(3, 3, func(seq []int) {
+			if len(seq) == 0 {
+				return
+			}
+			esc := ""
+			for _, e := range seq {
+				esc += []string{"\\\\", "\\.", "\\-"}[e]
+			}
+			for _, tail := range []string{"", "z"} {
+				l := label(n) + esc + tail
+				inputs = append(inputs, l+".example.com", "www."+l, "www."+l+":8443")
+			}
+		})
+	}
 	inputs = append(inputs, "o.example..", "o.example..:8443", "https://o.example../x", "o.example...", ".o.example", "", ".", "..", "a..b", ":", ":443", "://", "https://", "https://:443", "o.example:99999", "o.example:0", "o.example:-1", "[::1", "o.example:443:443", "https://o.example:port/", "\x00", "o\x00.example", strings.Repeat(".", 300))
 	for _, in := range inputs {
 		srv.Reset()
